@@ -4,7 +4,7 @@
    result = 0 :: payload for a normal return, 1 :: [code] for a Python exception,
    2 :: [] for "unknown function / malformed arguments" (harness bug, never a verdict). *)
 From Coq Require Import ZArith List Bool String.
-From MP Require Import Algo.Base Algo.Libmpf Algo.Libmpc Algo.Libmpi Algo.Ctxfun Algo.Str Algo.Caches.
+From MP Require Import Algo.Base Algo.Libmpf Algo.Libmpc Algo.Libmpi Algo.Ctxfun Algo.Str Algo.Caches Algo.Ctxstore.
 Import ListNotations.
 Open Scope Z_scope.
 
@@ -201,6 +201,7 @@ Definition table_ctx : list (string * handler) := [
   ("prec_dps"%string, fun a => match a with [n] => Some [0; prec_to_dps n; dps_to_prec n; repr_dps n] | _ => None end);
   ("lu_run"%string, fun a => Some (0 :: lu_run a));
   ("memo_run"%string, fun a => Some (0 :: memo_run a));
+  ("ctx_run"%string, fun a => Some (0 :: ctx_run a));
   ("from_float_parts"%string, fun a => match a with [m;e;p;r] => Some (out_mpf (from_float_parts m e p (rnd_of_Z r))) | _ => None end);
   ("to_float_parts"%string, fun a => match a with [s;m;e;b;r] =>
       Some (let '(mm, ee) := to_float_parts (Mpf s m e b) (rnd_of_Z r) in [0; mm; ee]) | _ => None end)
